@@ -51,6 +51,13 @@ func (db *DB) queryForRemote(ctx context.Context, sqlString string, isSubQuery b
 	}
 	elapsed := mtime.Stopwatch()
 	defer func() {
+		// Executing a query evaluates the expressions that it contains, some of
+		// which panic on unexpected data. Fail the query rather than the process.
+		p := recover()
+		if p != nil {
+			result = nil
+			err = fmt.Errorf("Panic while running query: %v", p)
+		}
 		db.log.Debugf("Processed query in %v, error?: %v : %v", elapsed(), err, sqlString)
 	}()
 	if unflat {
